@@ -486,3 +486,47 @@ def r_proj_tidy_independent(cx):
           "with a=, rf= and the deprecated k= keeps its k=, which Rust Geodesy ignores (scale 1 instead of k)",
           cx.where(f.term(bad[0])["span"]) if bad else cx.where(f.d["span"]))
     cx.count("R-PROJ-TIDY-INDEPENDENT", "repairs", 2)
+
+
+@rule("R-PROJ-PASSTHROUGH", ["C17", "C14"])
+def r_proj_passthrough(cx):
+    """Text that is not PROJ syntax passes through parse_proj unchanged: a definition that contains the Rust Geodesy
+    step separator `|`, and - independently - a definition that does not contain `proj` at all, never reaches the
+    translation (tidy_proj, which among other things renames `k=` to `k_0=` - the Love number `k` of permtide would
+    be lost). Decided by reachability under the partial assignment "contains('|') is true", resp. "contains(\\"proj\\")
+    is false", through plain, bitwise and short-circuit forms of the guard."""
+    import guards
+    f = cx.f.fn(PARSE)
+    A = B = None
+    for bb, t in f.calls():
+        c = f.callee(t) or ""
+        if not c.endswith("str>::contains"):
+            continue
+        a = f.arg_terms(bb)
+        if len(a) < 2:
+            continue
+        p = mir.strip_refs(a[1])
+        term = mir.strip_refs(f.call_term(t, bb))
+        recv = mir.strip_refs(a[0])
+        if p[0] == "const" and p[2] == ("char", "|") and recv in (("arg", 1), ("proj", ("arg", 1), "deref")) and A is None:
+            A = term
+        if p[0] == "const" and p[2] == ("str", "proj") and recv in (("arg", 1), ("proj", ("arg", 1), "deref")) and B is None:
+            B = term
+    tidy = [b for b, t in f.calls() if (f.callee(t) or "") == "token::tidy_proj"]
+    n = 0
+    for label, atom, val, what in (("pipe", A, True, "contains the step separator `|`"),
+                                   ("no-proj", B, False, "does not contain `proj`")):
+        n += 1
+        if atom is None or not tidy:
+            cx.ob("R-PROJ-PASSTHROUGH", label, False,
+                  "anchor-missing: parse_proj does not test whether the definition %s (or never calls tidy_proj)" % what,
+                  cx.where(f.d["span"]))
+            continue
+        reach = guards.reach_under(f, {atom: val})
+        ok = not any(b in reach for b in tidy)
+        cx.ob("R-PROJ-PASSTHROUGH", label, ok,
+              "a definition that %s never reaches the PROJ translation" % what if ok else
+              "parse_proj: a definition that %s can still reach the PROJ translation (the pass-through guard needs more "
+              "than that): plain Rust Geodesy text is rewritten, e.g. `permtide ... k=0.25` loses its `k`" % what,
+              cx.where(f.d["span"]))
+    cx.count("R-PROJ-PASSTHROUGH", "guards", n)
